@@ -5,7 +5,7 @@
    Not modelled (EUnmodelled): arrays and sizeof on arrays, reading bit registers in
    expressions, float %, bool/float register indices, ints beyond 2^53 converted to float. *)
 From Coq Require Import ZArith List Bool String PrimFloat Lia.
-From Verif Require Import Aexp BGate PyVal Ast State Arr GatesGen GateLib.
+From Verif Require Import Aexp BGate PyVal CastPrim Ast State Arr GatesGen GateLib.
 Import ListNotations.
 Open Scope string_scope.
 Open Scope list_scope.
@@ -130,12 +130,9 @@ Definition validate_index (i size : Z) : M unit :=
 
 (* validator.validate_variable_assignment_value + maps.qasm_variable_type_cast *)
 Definition ten308 : Z := 10 ^ 308.
-Definition float32_limit : float := 0x1.ffffffb5d7ea7p+126%float.   (* 1.70141183 * 10**38 *)
+Definition float32_limit : float := 0x1.ffffffe8c0932p+126%float.   (* 1.70141183 * (10**38), as CPython evaluates it *)
 
-Definition float_exceeds_ten308 (f : float) : bool :=   (* exact: f > 10**308 (an int) *)
-  if PrimFloat.is_nan f then false
-  else if PrimFloat.is_infinity f then PrimFloat.ltb zero f
-  else match float_trunc f with Some z => ten308 <? z | None => false end.
+Definition float_exceeds_ten308 (f : float) : bool := fz_gt f ten308.   (* exact: f > 10**308 (an int) *)
 
 Definition cast_value (k : vkind) (size : option Z) (v : pyval) : res pyval :=
   match k with
@@ -167,21 +164,21 @@ Definition cast_value (k : vkind) (size : option Z) (v : pyval) : res pyval :=
               | VBool b => Ok (if b then one else zero)
               | VNone => Err EValidation
               end;;
-      match size with
-      | Some 32 =>
-          if PrimFloat.ltb f (PrimFloat.opp float32_limit) || PrimFloat.ltb float32_limit f
+      if match size with Some n => n =? 32 | None => false end
+      then
+          if PrimFloat.ltb f (-0x1.ffffffe8c0932p+126)%float || PrimFloat.ltb float32_limit f
           then Err EValidation else Ok (VFloat f)
-      | _ =>
+      else
           if PrimFloat.ltb f (-0x1.1ccf385ebc8ap+1023)%float || float_exceeds_ten308 f
           then Err EValidation else Ok (VFloat f)
-      end
   | KBit =>
       match v with
       | VInt z => Ok (VBool (negb (z =? 0)))
       | VBool b => Ok (VBool b)
       | _ => Err EValidation      (* float / None not castable to bit *)
       end
-  | _ => Err EValidation          (* VARIABLE_TYPE_MAP has no entry: qubit, angle, complex, ... *)
+  | KComplex => Err (EInternal KKey)   (* in VARIABLE_TYPE_MAP, but VARIABLE_TYPE_CAST_MAP has no entry *)
+  | _ => Err EValidation          (* VARIABLE_TYPE_MAP has no entry: qubit, angle, ... *)
   end.
 
 Section Open.
@@ -1108,15 +1105,10 @@ Definition visit_generic_phase (mods : list gmod) (arg : expr) (qubits : list qa
   else
     v00 <- eval0 arg false None;;
     let v0 := num_of_bool v00 in
-    final <- (fix go (k : nat) (v : pyval) : M pyval :=
-                match k with
-                | O => ret v
-                | S k' =>
-                    v' <- (if inv then lift (py_binop OpMul (VInt (-1)) v) else ret v);;
-                    s <- getst;;
-                    guard (negb (enclosing_global s && negb (match qubits' with [] => true | _ => false end))) EValidation;;;
-                    go k' v'
-                end) (Z.to_nat n) v0;;
+    (* every application folds the (unchanged) argument of its own copy of the statement *)
+    final <- (if inv then lift (py_binop OpMul (VInt (-1)) v0) else ret v0);;
+    s <- getst;;
+    guard (negb (enclosing_global s && negb (match qubits' with [] => true | _ => false end))) EValidation;;;
     emit (repeat (SPhase [] (ELit final) qubits') (Z.to_nat n)).
 
 (* ---------- control flow ---------- *)
